@@ -44,7 +44,7 @@ REQUIRED_PROBES = {"quick": ["unused_vtimezone_present", "unknown_id_used", "cus
                              "roundtrip", "restart_made_id_unknown", "duplicate_vtimezone", "tzidless_vtimezone",
                              "windows_id", "slash_prefixed_id", "narrow_window", "zoned_property_removed",
                              "zoned_property_replaced", "tzid_parameter_edited_in_place", "window_given_as_datetime",
-                             "vtimezone_renamed_in_place"]}
+                             "vtimezone_renamed_in_place", "tzid_on_falsy_value"]}
 REQUIRED_PROBES["thorough"] = REQUIRED_PROBES["quick"]
 
 IANA = ["Europe/Berlin", "America/New_York", "Asia/Kolkata"]
@@ -55,8 +55,8 @@ WALLS = [[2020, 3, 10, 10, 0, 0], [2020, 3, 29, 2, 30, 0], [2021, 11, 7, 1, 30, 
          [2030, 6, 1, 12, 0, 0]]
 
 KINDS = {
-    "VEVENT": ["DTSTART", "DTEND", "RECURRENCE-ID", "RDATE", "EXDATE", "X-WHEN"],
-    "VTODO": ["DTSTART", "DUE", "RDATE", "X-WHEN"],
+    "VEVENT": ["DTSTART", "DTEND", "RECURRENCE-ID", "RDATE", "EXDATE", "X-WHEN", "LOCATION", "SEQUENCE"],
+    "VTODO": ["DTSTART", "DUE", "RDATE", "X-WHEN", "PERCENT-COMPLETE"],
     "VJOURNAL": ["DTSTART", "RDATE", "EXDATE"],
     "VFREEBUSY": ["DTSTART", "DTEND", "FREEBUSY"],
     "VALARM": ["X-WHEN"],
@@ -66,6 +66,9 @@ CONTAINERS = {"VCALENDAR": ["VEVENT", "VTODO", "VJOURNAL", "VFREEBUSY", "X-COMP"
               "VEVENT": ["VALARM", "X-COMP"], "VTODO": ["VALARM"], "X-COMP": ["VEVENT", "VTODO", "X-COMP", "VALARM"],
               "VJOURNAL": [], "VFREEBUSY": [], "VALARM": []}
 LIST_PROPS = ("RDATE", "EXDATE")
+# "any property": a TZID parameter also counts on values that are no date-times - empty, zero and False ones included
+XVALS = {"X-WHEN": [["s", "some text"], ["s", "some text"], ["s", ""]], "LOCATION": [["s", ""], ["s", "Room 1"]],
+         "SEQUENCE": [["i", 0], ["i", 3]], "PERCENT-COMPLETE": [["i", 0], ["i", 50]]}
 
 
 def id_class(tzid):
@@ -129,8 +132,9 @@ def _propspec(rng, kind, ids, via):
     elif name == "FREEBUSY":
         spec["shape"] = "period"
         spec["vals"] = [rng.choice(WALLS) for _ in range(rng.randint(1, 2))]
-    elif name == "X-WHEN":
+    elif name in XVALS:
         spec["shape"] = "xparam"
+        spec["xval"] = rng.choice(XVALS[name])
     else:
         spec["shape"] = "single"
     # how an API client attaches the zone: a tz object (IANA ids only) or an explicit TZID parameter
@@ -204,8 +208,8 @@ def generate(rng, cfg):
                     p["shape"], p["vals"] = "list", [rng.choice(WALLS)]
                 elif name == "FREEBUSY":
                     p["shape"], p["vals"] = "period", [rng.choice(WALLS)]
-                elif name == "X-WHEN":
-                    p["shape"], p["tzkind"] = "xparam", "param"
+                elif name in XVALS:
+                    p["shape"], p["tzkind"], p["xval"] = "xparam", "param", rng.choice(XVALS[name])
                 else:
                     p["shape"] = "single"
                 node.tzids = [e for e in node.tzids if e[0] != name] + _entry_tzids([p])
@@ -338,7 +342,7 @@ def _end(w):
 def prop_line(p):
     par = f";TZID={p['tzid']}" if p["tzid"] is not None else ""
     if p["shape"] == "xparam":
-        return f"{p['name']}{par}:some text"
+        return f"{p['name']}{par}:{p.get('xval', ['s', 'some text'])[1]}"
     if p["shape"] == "list":
         return f"{p['name']}{par}:" + ",".join(_fmt(w) for w in p["vals"])
     if p["shape"] == "period":
@@ -365,7 +369,7 @@ def api_add(comp, p):
     if tzid is not None and kind == "param":
         params = {"TZID": tzid}
     if p["shape"] == "xparam":
-        comp.add(p["name"], "some text", parameters=params)
+        comp.add(p["name"], p.get("xval", ["s", "some text"])[1], parameters=params)
     elif p["shape"] == "list":
         comp.add(p["name"], [dt(w) for w in p["vals"]], parameters=params)
     elif p["shape"] == "period":
@@ -638,6 +642,8 @@ def _probe_props(res, props):
             continue
         if p["shape"] in ("list", "period") and len(p["vals"]) > 1:
             res.probe("multi_valued_entry")
+        if p["shape"] == "xparam" and not p.get("xval", ["s", "x"])[1]:
+            res.probe("tzid_on_falsy_value")
         cls = id_class(p["tzid"])
         if cls == "windows":
             res.probe("windows_id")
